@@ -6,10 +6,13 @@ package main
 
 import (
 	"context"
+	"bytes"
 	"fmt"
 	"os"
+	"strconv"
 	"strings"
 	"sync"
+	"sync/atomic"
 
 	log "github.com/go-spring/log"
 )
@@ -104,30 +107,44 @@ func c11Worker(w *W) {
 			}
 		}
 	}
-	// concurrent phase (not in the race build: the generated sites store their marker in a shared table): G goroutines run
-	// every site in different orders; the lookup caches are shared between goroutines, the expected location of a site is
-	// the one established above
+	// concurrent phase (not in the race build: the generated sites store their marker in a shared table): 16 goroutines
+	// hammer randomly chosen sites (32 calls in a row each time); the lookup caches are shared between goroutines. A cheap
+	// appender compares each event's location with the one established above (millions of observations per second, so
+	// that windows of a few instructions inside a shared cache are hit)
 	if w.Spec.Flavour != "race" {
+		c11locOnce.Do(func() { log.RegisterPlugin[VLoc]("VLoc", log.PluginTypeAppender) })
+		c11loc = make([]string, len(c11sites))
+		for n, loc := range seenLoc {
+			c11loc[n] = loc
+		}
 		for _, fast := range []string{"true", "false"} {
-			cfg := map[string]string{"appender.rec.type": "VRec", "logger.lg.type": "Logger", "logger.lg.tags": "c11tag", "logger.lg.appenderRef.ref": "rec", "enableCaller": "true", "fastCaller": fast}
+			cfg := map[string]string{"appender.loc.type": "VLoc", "logger.lg.type": "Logger", "logger.lg.tags": "c11tag", "logger.lg.appenderRef.ref": "loc", "enableCaller": "true", "fastCaller": fast}
 			if err := log.Refresh(cfg); err != nil {
 				w.Violate("C11:refresh-failed", "Refresh failed: "+err.Error(), cfg)
 				log.Destroy()
 				continue
 			}
-			const G, R = 8, 12
+			c11locBad.Store(0)
+			c11locSeen.Store(0)
+			c11locFirst.Store("")
+			const G = 16
+			rounds := 1500
+			if fast == "false" {
+				rounds = 300
+			}
 			var wg sync.WaitGroup
 			for g := 0; g < G; g++ {
 				wg.Add(1)
 				go func(g int) {
 					defer wg.Done()
 					r := newRng(w.Spec.Seed, uint64(1000+g))
-					for rep := 0; rep < R; rep++ {
-						for _, i := range r.Perm(len(c11sites)) {
-							s := c11sites[i]
-							if pv, st := catch(func() { s.run(ctx, tag) }); pv != nil {
-								w.Violate("C11:log-call-panic", fmt.Sprintf("site %d (%s/%s) panicked under concurrency: %v\n%s", i, s.entry, s.shape, pv, trunc(st, 800)), nil)
-							}
+					for rep := 0; rep < rounds && c11locBad.Load() == 0; rep++ {
+						s := c11sites[r.IntN(len(c11sites))]
+						if s.shape == "goroutine" {
+							continue // these sites spawn and join a goroutine per call: too slow for the hot loop, covered above
+						}
+						for k := 0; k < 32; k++ {
+							s.run(ctx, tag)
 						}
 					}
 				}(g)
@@ -135,28 +152,13 @@ func c11Worker(w *W) {
 			wg.Wait()
 			log.Destroy()
 			mode := map[string]string{"true": "fast", "false": "default"}[fast]
-			okN := 0
-			for _, it := range rec.take() {
-				var n int
-				fmt.Sscanf(idOf(it.JSON), "id-c11-%d", &n)
-				if n < 0 || n >= len(c11sites) {
-					continue
-				}
-				s := c11sites[n]
-				w.Eval(1)
-				want, ok := seenLoc[n]
-				if !ok {
-					continue
-				}
-				if got := fmt.Sprintf("%s:%d", it.File, it.Line); got != want {
-					w.Violate("C11:wrong-location:"+mode+":concurrent", fmt.Sprintf("site %d (%s in shape %s, %s mode, %d goroutines running all sites): record says %s, the statement is at %s", n, s.entry, s.shape, mode, G, got, want),
-						map[string]any{"site": n, "entry": s.entry, "shape": s.shape, "fastCaller": fast, "goroutines": G})
-					continue
-				}
-				okN++
-			}
-			w.Count("concurrent_observations_matched", int64(okN))
-			if okN > 0 {
+			w.Eval(c11locSeen.Load())
+			w.Count("concurrent_observations", c11locSeen.Load())
+			if bad := c11locBad.Load(); bad > 0 {
+				first, _ := c11locFirst.Load().(string)
+				w.Violate("C11:wrong-location:"+mode+":concurrent", fmt.Sprintf("%d goroutines logging from randomly chosen sites (%s mode, %s build): %d of %d records carried another statement's location; first: %s", G, mode, w.Spec.Flavour, bad, c11locSeen.Load(), first),
+					map[string]any{"fastCaller": fast, "goroutines": G})
+			} else if c11locSeen.Load() > 0 {
 				w.Distinct("concurrent|" + mode + "|" + w.Spec.Flavour)
 			}
 		}
@@ -173,6 +175,55 @@ func c11Worker(w *W) {
 	w.Count("sites", int64(len(c11sites)))
 	w.Count("sites_beyond_line_65535", int64(big))
 	w.Sample(map[string]any{"flavour": w.Spec.Flavour, "site": "Errorf in a deferred closure", "expected": "the here() marker evaluated on the same source line", "inlined_helper_file": shortPath(inlFile)})
+}
+
+// VLoc: appender that only compares the event's location with the expected one of its site (id in the msg field).
+type VLoc struct{ log.AppenderBase }
+
+var (
+	c11locOnce  sync.Once
+	c11loc      []string // site -> "file:line"
+	c11locBad   atomic.Int64
+	c11locSeen  atomic.Int64
+	c11locFirst atomic.Value
+)
+
+func (a *VLoc) Start() error   { return nil }
+func (a *VLoc) Stop()          {}
+func (a *VLoc) Write(b []byte) {}
+func (a *VLoc) Append(e *log.Event) {
+	n := -1
+	for _, f := range e.Fields {
+		if f.Key == "msg" {
+			if s := c11fieldString(f); strings.HasPrefix(s, "id-c11-") {
+				n, _ = strconv.Atoi(s[len("id-c11-"):])
+			}
+			break
+		}
+	}
+	if n < 0 || n >= len(c11loc) || c11loc[n] == "" {
+		return
+	}
+	c11locSeen.Add(1)
+	want := c11loc[n]
+	i := strings.LastIndexByte(want, ':')
+	if e.File != want[:i] || strconv.Itoa(e.Line) != want[i+1:] {
+		if c11locBad.Add(1) == 1 {
+			c11locFirst.Store(fmt.Sprintf("site %d (%s/%s) reported %s:%d, the statement is at %s", n, c11sites[n].entry, c11sites[n].shape, e.File, e.Line, want))
+		}
+	}
+}
+
+// c11fieldString returns the string carried by a string field (encoded through a tiny encoder).
+func c11fieldString(f log.Field) string {
+	var buf bytes.Buffer
+	enc := log.NewTextEncoder(&buf, "||")
+	f.Encode(enc)
+	s := buf.String()
+	if i := strings.IndexByte(s, '='); i >= 0 {
+		return s[i+1:]
+	}
+	return s
 }
 
 func shortPath(p string) string {
